@@ -161,6 +161,24 @@ def entries(tier):
             add('macro-%d-%d' % (i, j), mod([{'k': 'value', 'name': 'before', 'oid': ['x', 1]},
                                              {'k': 'macro', 'name': mname, 'body': body},
                                              {'k': 'value', 'name': 'after', 'oid': ['x', 2]}]))
+    # adversarial block contents: END inside words / quoted words of a MACRO body (RFC 3159 has "EXTENDS"), nested braces in a
+    # CHOICE, a semicolon inside a comment of an EXPORTS list
+    for i, body in enumerate([' ::= BEGIN TYPE NOTATION ::= "EXTENDS" value(VALUE ObjectName) | "APPEND" BENDS ENDING xEND ',
+                              '\n::= BEGIN\n  ExtendsPart ::= "EXTENDS" "{" Entry "}" | empty\n  SENDER ::= x\n']):
+        add('macro-adv-%d' % i, mod([{'k': 'value', 'name': 'before', 'oid': ['x', 1]},
+                                     {'k': 'macro', 'name': 'OBJECT-TYPE', 'body': body},
+                                     {'k': 'value', 'name': 'after', 'oid': ['x', 2]}]))
+    for i, body in enumerate([' { a INTEGER { x(1) }, b INTEGER }', ' { a BITS { p(0), q(1) }, b SEQUENCE { c INTEGER { y(2) } } }']):
+        add('choice-adv-%d' % i, mod([{'k': 'choice', 'name': 'MyChoice', 'body': body},
+                                      {'k': 'value', 'name': 'after', 'oid': ['x', 1]}]))
+    for i, body in enumerate([' a, -- x; y\n b', '\n a -- first; second; third\n']):
+        add('exports-adv-%d' % i, mod([{'k': 'value', 'name': 'a', 'oid': ['x', 1]}], exports=body))
+    # identifiers that merely begin with the words that open a skipped block
+    for i, tname in enumerate(['MACROType', 'CHOICEKind', 'EXPORTSList', 'MACRO-Type', 'CHOICE2']):
+        add('block-word-prefix-%d' % i, mod([{'k': 'type', 'name': tname, 'syntax': ('simple', 'INTEGER')},
+                                             ot(syntax=('ref', tname))]))
+    for i, mname in enumerate(['EXPORTS-MIB', 'MACRO-MIB', 'CHOICES-MIB']):
+        add('block-word-module-%d' % i, mod([{'k': 'value', 'name': 'a', 'oid': ['x', 1]}], name=mname))
     for i, body in enumerate([' a, b, C', '\n  a,\n  b -- c\n', ' ', '\n a,\r b,\r\n c\r']):
         add('exports-%d' % i, mod([{'k': 'value', 'name': 'a', 'oid': ['x', 1]}], exports=body))
         add('exports-imp-%d' % i, mod([{'k': 'value', 'name': 'a', 'oid': ['x', 1]}], exports=body,
